@@ -20,11 +20,11 @@ def build(sc):
 
 
 def hx(s):
-    return binascii.hexlify(s.encode("latin-1")).decode()
+    return binascii.hexlify(s.encode("utf-8", "surrogateescape")).decode()
 
 
 def unhx(h):
-    return binascii.unhexlify(h).decode("latin-1")
+    return binascii.unhexlify(h).decode("utf-8", "surrogateescape")
 
 
 def input_text(case):
@@ -209,5 +209,5 @@ def stack_view_event(names_rank, line, h, tag="C15"):
             dig = "%s|%s|%s|%s|%d|%d|%s" % (l[3], l[4], unhx(l[5]), unhx(l[6]), l[7], l[8], go_quote(unhx(l[9])))
             logs.append([names_rank.get(name, 0), l[1], dig, l[7]])
     ok = e["referr"] == 0 and e["logerr"] == 0
-    return {"op": "view", "h": h, "tag": tag, "hasraw": False, "ok": ok, "refs": refs, "logs": logs, "rawrefs": [], "rawlogs": [],
+    return {"op": "view", "h": h, "tag": tag, "hasraw": False, "interleave": "", "ok": ok, "refs": refs, "logs": logs, "rawrefs": [], "rawlogs": [],
             "err": "" if ok else "C: %d/%d" % (e["referr"], e["logerr"])}
